@@ -873,6 +873,68 @@ func c04LeanChurn(run *rt.Run, r *rt.Rand) {
 	}
 }
 
+// c04FirstRegistrations: many rounds, each on an event type the Broker has never seen: G goroutines behind a
+// barrier register one pipeline each (own nodes, own pipeline id). Every registration that returned nil is
+// registered: after the goroutines finished a Send of the type is delivered to each of those pipelines exactly
+// once, and each of them can be removed.
+func c04FirstRegistrations(run *rt.Run, r *rt.Rand) {
+	ctx := context.Background()
+	b, err := eventlogger.NewBroker()
+	if err != nil {
+		run.Inconclusive(err.Error())
+		return
+	}
+	rounds, G := r.Range(60, 160), r.Range(3, 8)
+	withThr := r.Bool()
+	for round := 0; round < rounds; round++ {
+		et := eventlogger.EventType(fmt.Sprintf("ft%d", round))
+		sinks := make([]*leanNode, G)
+		errs := make([]error, G)
+		bar := rt.NewBarrier(G)
+		var wg sync.WaitGroup
+		for k := 0; k < G; k++ {
+			wg.Add(1)
+			go func(k int) {
+				defer wg.Done()
+				f, s := eventlogger.NodeID(fmt.Sprintf("ff-%d-%d", round, k)), eventlogger.NodeID(fmt.Sprintf("fs-%d-%d", round, k))
+				sinks[k] = &leanNode{typ: eventlogger.NodeTypeSink}
+				b.RegisterNode(f, &leanNode{typ: eventlogger.NodeTypeFormatter})
+				b.RegisterNode(s, sinks[k])
+				bar.Wait()
+				if withThr && k == 0 {
+					// the type may also become known through a threshold setter at the same moment
+					b.SetSuccessThreshold(et, 0)
+				}
+				errs[k] = b.RegisterPipeline(eventlogger.Pipeline{EventType: et, PipelineID: eventlogger.PipelineID(fmt.Sprintf("fp%d", k)), NodeIDs: []eventlogger.NodeID{f, s}})
+			}(k)
+		}
+		wg.Wait()
+		desc := fmt.Sprintf("round %d: %d goroutines register one pipeline each for an event type the Broker has not seen before (threshold setter in the mix: %v)", round, G, withThr)
+		run.Add("first_registration_rounds", 1)
+		for k, e := range errs {
+			if e != nil {
+				run.Violation("history-pattern:first-registration-refused", fmt.Sprintf("RegisterPipeline of a well-formed pipeline with its own nodes and id failed: %v", e), desc)
+				return
+			}
+			_ = k
+		}
+		b.Send(ctx, et, "x")
+		for k, s := range sinks {
+			if n := atomic.LoadInt64(&s.n); n != 1 {
+				run.Violation("history-pattern:first-registration-lost", fmt.Sprintf("pipeline fp%d was registered (nil) before the Send started, yet its sink received the event %d times", k, n), desc)
+				return
+			}
+		}
+		for k := range sinks {
+			if ok, err := b.RemovePipelineAndNodes(ctx, et, eventlogger.PipelineID(fmt.Sprintf("fp%d", k))); !ok || err != nil {
+				run.Violation("history-pattern:first-registration-lost", fmt.Sprintf("RemovePipelineAndNodes of pipeline fp%d, registered a moment ago, returned %v, %v", k, ok, err), desc)
+				return
+			}
+		}
+	}
+	run.Eval(fmt.Sprintf("first-registrations|%d|%v", G, withThr))
+}
+
 func TestC04(t *testing.T) {
 	run := rt.Start(t, "C04")
 	defer run.Finish()
@@ -901,6 +963,9 @@ func TestC04(t *testing.T) {
 		}
 		if i%10 == 5 {
 			c04LeanChurn(run, cr)
+		}
+		if i%10 == 8 {
+			c04FirstRegistrations(run, cr)
 		}
 		nsend, nreg := 0, 0
 		kinds := map[string]bool{}
